@@ -34,6 +34,11 @@ def git_state(root):
         return None, None
 
 
+def hash_str(s):
+    import zlib
+    return zlib.crc32(s.encode())
+
+
 def load_known(prop):
     p = os.path.join(VERIF, "known_findings.json")
     if not os.path.exists(p):
@@ -75,7 +80,10 @@ def main(argv=None):
 
     sys.path.insert(0, VERIF)
     nshards = a.shards or int(os.environ.get("VERIF_SHARDS", "0") or 0) or min(16, os.cpu_count() or 4)
-    work = os.path.join(VERIF, ".work", prop)
+    # a tree other than /repo (seeded change in a scratch worktree) gets its own work and replay
+    # names, so that several trees can be checked at the same time
+    alt = "" if root == "/repo" else "-alt%08x" % (hash_str(root) & 0xffffffff)
+    work = os.path.join(VERIF, ".work", prop + alt)
     os.makedirs(work, exist_ok=True)
     for f in os.listdir(work):
         try:
@@ -192,7 +200,7 @@ def main(argv=None):
     for key in unknown_keys:
         ws = sorted([v for v in violations if v["key"] == key], key=lambda v: v["size"])
         w = ws[0]
-        fn = os.path.join(VERIF, "replays", "%s-%s-%s.json" % (prop, tier, _slug(key)))
+        fn = os.path.join(VERIF, "replays", "%s%s-%s-%s.json" % (prop, alt, tier, _slug(key)))
         with open(fn, "w") as f:
             json.dump({"property": prop, "tier": tier, "seed": seed, "shard": w.get("shard"),
                        "index": w.get("index"), "key": key, "detail": w["detail"], "case": w["case"]},
